@@ -50,6 +50,7 @@ def int_children(c, name="X"):
 
 
 class _RT(Harness):
+    xcheck = 2
     module = "puan.logic.plog"
     ids = (("explicit", "A"), ("generated", None))
 
